@@ -77,6 +77,8 @@ def gen_solver_case(r, n=None, ops=None, spec=None, m=None, lim=None, eps=None, 
     lim = lim or r.choice([1, 2, 3, 5, 17, 40, 80, 150, 400])
     eps = eps if eps is not None else r.choice([0.5, 1.0, 1.5, 0.1, 0.05, 0.02, 0.01, 0.003, 1e-3, 1e-4])
     rr = rr or round(r.uniform(1.05, 6), 2)
+    if listeners == "rec" and r.random() < 0.3:
+        listeners = "rec+%d" % r.randint(1, 3)       # further passive listeners next to the recording one
     head = [f"impl obj {json.dumps(spec)}", f"impl refine {1 if refine else 0}", f"impl listeners {listeners}"]
     if fail:
         head.append(f"impl fail {fail[0]} {fail[1]}")
